@@ -36,6 +36,7 @@ type State struct {
 	known    map[string]bool
 	closures map[string]*closure
 	recov    int // recover-scope depth
+	calls    map[string]string // $calls(name): number of calls of the functions named in the contract's `counts` clause
 	recvs    string // number of values received from channels in this function so far (ghost, $recvs)
 	sends    string // number of channel sends that completed in this function so far (ghost, $sends)
 	barrier  int // states with different barriers are never merged (paths through different loops)
@@ -62,6 +63,12 @@ func (s *State) clone() *State {
 		n.closures[k] = v
 	}
 	n.defers = append([]deferred(nil), s.defers...)
+	if s.calls != nil {
+		n.calls = make(map[string]string, len(s.calls))
+		for k, v := range s.calls {
+			n.calls[k] = v
+		}
+	}
 	return n
 }
 
@@ -604,6 +611,24 @@ func (fc *FnCtx) mergeStates(sts []*State) *State {
 			t = fc.nameIfBig(m, t, srt, "Hm_"+k)
 		}
 		m.heap[k] = t
+	}
+	callNames := map[string]bool{}
+	for _, s := range sts {
+		for k := range s.calls {
+			callNames[k] = true
+		}
+	}
+	for k := range callNames {
+		c, _ := pick(func(s *State) (string, bool) {
+			if v, ok := s.calls[k]; ok {
+				return v, true
+			}
+			return "0", true
+		})
+		if m.calls == nil {
+			m.calls = map[string]string{}
+		}
+		m.calls[k] = c
 	}
 	if sd, ok := pick(func(s *State) (string, bool) {
 		if s.sends == "" {
